@@ -34,11 +34,13 @@ def delta_for(rho):
     return -0.5 * math.log(1.0 - 2.0 * r) if r < 0.5 else None
 
 
-def layout(rng):
+def layout(rng, multi=False):
     """chromosomes of 1-3 loci whose pairwise Haldane recombination fractions are all multiples of 1/8"""
     chroms = []
-    for _ in range(rng.randrange(1, 4)):
+    for q in range(rng.randrange(1, 4)):
         kind = rng.choice(["one", "two", "two", "three", "tied"])
+        if multi and q == 0:
+            kind = rng.choice(["three", "tied"])        # a chromosome longer than the chunk sizes 1 and 2
         if kind == "one":
             chroms.append([0.0])
         elif kind == "two":
@@ -73,10 +75,12 @@ def one_case(cid, rng, scheme, s, genic, cov, thorough):
     from pybrops.model.gmod.DenseAdditiveLinearGenomicModel import DenseAdditiveLinearGenomicModel
     from pybrops.popgen.gmap.HaldaneMapFunction import HaldaneMapFunction
     K = SCHEME[scheme]
-    chroms = layout(rng)
+    # chunk size: cycled deterministically so that every class meets 1 and 2 (chunking active) in each tier
+    mem = [1, 2, None, 1024][cid % 4] if not cov else [1, 1, 2][cid % 3]
+    chroms = layout(rng, multi=mem in (1, 2))
     L = sum(len(c) for c in chroms)
     n = rng.randrange(2, 5) if K < 4 else rng.randrange(2, 4)
-    T = 2 if cov else rng.randrange(1, 3)
+    T = rng.choice([2, 3]) if cov else rng.randrange(1, 3)
     A = np.array([[rng.randrange(2) for _ in range(L)] for _ in range(n)], dtype="int8")
     if rng.random() < 0.3 and n > 1:
         A[1] = A[0]                              # genetically identical parents
@@ -94,7 +98,6 @@ def one_case(cid, rng, scheme, s, genic, cov, thorough):
     else:
         name = "Dense%sDHAdditive%sVarianceMatrix" % (way, "Genic" if genic else "Genetic"); pkg = "pybrops.model.vmat."
     cls = getattr(importlib.import_module(pkg + name), name)
-    mem = rng.choice([1, 2, None, 1024])
     c = {"id": cid, "scheme": scheme, "K": K, "D": D, "s": s, "genic": genic, "A": A.astype(int).tolist(), "u": u.astype(int).tolist(),
          "rhoM": rho_matrix(chroms), "err": None, "cls": name, "mem": repr(mem), "cov": cov}
     try:
@@ -220,7 +223,7 @@ def run(ctx):
             for s in ((0, 1, 2) if thorough else (0, 1, 2)):
                 plan.append(("4w", s, False, False))
             for s in (0, 1, 2):
-                plan.append(("2w", s, False, True))
+                plan.append(("2w", s, False, True)); plan.append(("2w", s, False, True))
             plan.append(("3w", 0, True, False)); plan.append(("4w", 0, True, False))
             plan.append(("3w", 1, False, True)); plan.append(("4w", 0, False, True))
             plan.append(("3w", 0, False, True)); plan.append(("4w", 1, False, True))   # the genic covariance classes are abstract (not instantiable)
